@@ -59,9 +59,10 @@ fn ctx<'a>(rep: &'a mut Report, describe: &'a dyn Fn() -> (String, String), len:
         engine: "slice-iter",
         describe,
         only: only.clone(),
-        max_depth: len + 3,
+        max_depth: DEPTH_BOUND.with(|d| d.get()).unwrap_or(len.saturating_add(3)),
         nodes: 0,
         leaves: 0,
+        depth_is_bound: DEPTH_BOUND.with(|d| d.get()).is_some(),
     }
 }
 
@@ -112,9 +113,24 @@ macro_rules! array_chunks_n {
     )*};
 }
 
+/// a zero-sized-element slice longer than isize::MAX (no memory behind it): offsets and lengths beyond isize::MAX
+static HUGE_UNITS: [(); usize::MAX] = [(); usize::MAX];
+thread_local! { static DEPTH_BOUND: std::cell::Cell<Option<usize>> = const { std::cell::Cell::new(None) }; }
+
 pub fn one<T: El>(rep: &mut Report, len: usize, size: usize, only_kind: Option<&str>, only: &Option<Vec<u8>>, wantdir: Option<&str>) {
     let v: Vec<T> = (0..len).map(T::make).collect();
-    let s: &[T] = &v;
+    one_slice::<T>(rep, &v, size, only_kind, only, wantdir)
+}
+
+/// the huge zero-sized slice with sizes that leave only a few items, explored to a stated depth from both ends
+pub fn one_huge(rep: &mut Report, size: usize, only_kind: Option<&str>, only: &Option<Vec<u8>>, wantdir: Option<&str>) {
+    DEPTH_BOUND.with(|d| d.set(Some(4)));
+    one_slice::<()>(rep, &HUGE_UNITS[..], size, only_kind, only, wantdir);
+    DEPTH_BOUND.with(|d| d.set(None));
+}
+
+fn one_slice<T: El>(rep: &mut Report, s: &[T], size: usize, only_kind: Option<&str>, only: &Option<Vec<u8>>, wantdir: Option<&str>) {
+    let len = s.len();
     let want = |k: &str| only_kind.map_or(true, |o| o == k);
     if size == 0 {
         // size 0 must panic for every sized iterator
@@ -225,8 +241,16 @@ pub fn run(tier: Tier, rep: &mut Report) -> (String, String) {
             }
         }
     }
+    // sizes beyond isize::MAX on small slices (std yields the whole slice once, or nothing)
+    let top = isize::MAX as usize;
+    for len in [0usize, 1, 3] {
+        for size in [top, top + 1, usize::MAX - 1, usize::MAX] {
+            jobs.push(("u8", len, size));
+            jobs.push(("unit", len, size));
+        }
+    }
     // biggest trees first for better load balance
-    jobs.sort_by_key(|j| std::cmp::Reverse(j.1 as i64 - j.2 as i64));
+    jobs.sort_by_key(|j| std::cmp::Reverse((j.1 as i128 - j.2 as i128).max(-1)));
     let r = par_each(&jobs, n_threads(tier), |&(ty, len, size), r| {
         match ty {
             "u8" => {
@@ -242,10 +266,19 @@ pub fn run(tier: Tier, rep: &mut Report) -> (String, String) {
         r.sample(|| format!("all next/next_back histories of every iterator kind x 3 direction variants on &[{ty}; {len}] with size {size}"));
     });
     rep.merge(r);
+    // the zero-sized slice of length usize::MAX: sizes that leave 1..=4 items, plus small sizes (astronomically many items),
+    // every history of up to 4 steps from both ends
+    if tier != Tier::Miri {
+        let huge_sizes = [usize::MAX, usize::MAX - 1, top + 2, top + 1, top, (1usize << 62) + 1, 1usize << 62, 3, 2, 1];
+        rep.merge(par_each(&huge_sizes, n_threads(tier), |&size, r| {
+            one_huge(r, size, None, &None, None);
+            r.sample(|| format!("histories of <= 4 steps of every sized iterator kind on &[(); usize::MAX] with size {size}"));
+        }));
+    }
     entry_points(rep);
     (
         "state = (iterator kind, direction variant, element type, slice length, size, history of next/next_back steps); children are made from copy(); every step and every state accessor (as_slice/remainder) is compared with the std iterator of the same name by address and length; size 0 must panic; traces = complete histories (both ends report None); non-trivial = length >= 3 and more than two complete histories".into(),
-        format!("kinds: iter (also through into_iter! on &[T], &&[T], &[T;N], &&[T;N]), iter_copied, windows, chunks, rchunks, chunks_exact, rchunks_exact, array_chunks::<1..=7>; variants: forward, .rev(), .rev().rev(); element types u8 (distinct) with len 0..={maxlen}, unit/String/[u16;2] with len 0..={}; sizes 0..=len+1", maxlen.min(tier.pick(9, 11, 3))),
+        format!("kinds: iter (also through into_iter! on &[T], &&[T], &[T;N], &&[T;N]), iter_copied, windows, chunks, rchunks, chunks_exact, rchunks_exact, array_chunks::<1..=7>; variants: forward, .rev(), .rev().rev(); element types u8 (distinct) with len 0..={maxlen}, unit/String/[u16;2] with len 0..={}; sizes 0..=len+1; sizes isize::MAX, isize::MAX+1, usize::MAX-1, usize::MAX on slices of length 0, 1, 3; the zero-sized slice of length usize::MAX with 10 sizes (1, 2, 3, 2^62, 2^62+1, isize::MAX.., usize::MAX) to depth 4 from both ends", maxlen.min(tier.pick(9, 11, 3))),
     )
 }
 
@@ -259,6 +292,9 @@ pub fn replay(case: &str, rep: &mut Report) {
     }
     if kind == "into_iter" {
         return entry_points(rep);
+    }
+    if ty == "unit" && len == usize::MAX {
+        return one_huge(rep, size, Some(kind), &only, Some(dir));
     }
     match ty {
         "u8" => one::<u8>(rep, len, size, Some(kind), &only, Some(dir)),
